@@ -210,7 +210,7 @@ func solveAll(jobs []solveJob, timeout time.Duration, par int, all bool) {
 				qf := j.x.queryForDepth(o, false, 2)
 				ff := filepath.Join(j.dir, sanitize(o.Name)+".near.smt2")
 				os.WriteFile(ff, []byte(qf), 0o644)
-				tshort := timeout / 3
+				tshort := timeout / 2
 				if tshort < 2*time.Second {
 					tshort = 2 * time.Second
 				}
